@@ -525,7 +525,8 @@ func setGenExpr(t *schema.Table, c *schema.Column, f int64) error {
 		return fmt.Errorf("missing CREATE statement for table: %q", t.Name)
 	}
 	// The name should be followed by a closing quote or a space, to avoid matching a column that this name is a prefix of.
-	re, err := regexp.Compile(fmt.Sprintf("(?:[(,]\\s*)[\"`\\[]*(%s)(?:[\"`\\]]+|\\s)[^,]*(?i:GENERATED\\s+ALWAYS)*\\s*(?i:AS){1}\\s*\\(", regexp.QuoteMeta(c.Name)))
+	// The column type may hold a comma inside parentheses, e.g. decimal(10,5).
+	re, err := regexp.Compile(fmt.Sprintf("(?:[(,]\\s*)[\"`\\[]*(%s)(?:[\"`\\]]+|\\s)(?:[^,(]|\\([^)]*\\))*(?i:GENERATED\\s+ALWAYS)*\\s*(?i:AS){1}\\s*\\(", regexp.QuoteMeta(c.Name)))
 	if err != nil {
 		return err
 	}
